@@ -13,3 +13,7 @@ def parsegate(run, P):
 def codec(run, P):
     from rules import r_codec
     r_codec.run(run, P)
+def stream(run, P):
+    from rules import r_stream
+    r_stream.run_adv(run, P)
+    r_stream.run_cap(run, P)
